@@ -16,6 +16,11 @@ CLAIMED = {
             'the real instructions: the verdict covers every value inside the bound.', '3.C18'),
 }
 
+CLAIMED['C01'] = ('bounded symbolic execution of clang LLVM IR of the strided/morton/hilbert lookups + z3 (unbounded-integer theory with explicit wrap for row-major, bit-vectors for the curves)',
+    'In-bounds, injectivity and exact address of the index map for every extent vector (row-major: extents unbounded below PTRDIFF_MAX; curves: up to the stated side) and every in-range coordinate, in one solver query per obligation; plus the public API end to end (construct, fill, write and read at symbolic coordinates) on small grids with all stored bit patterns. Counterexamples are replayed on the g++ build before being reported.', '3.C01')
+CLAIMED['C14'] = ('bounded symbolic execution of clang LLVM IR of the index functions + z3 against functional oracles',
+    'Row-major position formula for all extents; Morton pdep == portable == reference bit interleave for all coordinates below 2^floor(64/N), N=1..4; Hilbert bijection/origin/adjacency on 2^k squares, k<=6 quick, <=8 thorough.', '3.C14')
+
 NA = {
     'C13': 'decided by the C++ type checker (overload resolution, constraints, template instantiation): there is no IR to execute and no SMT encoding of C++ semantic analysis within reach; enumerating and compiling stacks would be a different technique (DESIGN.md section 5)',
 }
